@@ -26,9 +26,8 @@ import (
 	"time"
 
 	"mosn.io/api"
-	mh2 "mosn.io/mosn/pkg/module/http2"
-	"mosn.io/pkg/buffer"
 	"mosn.io/mosn/pkg/log"
+	mh2 "mosn.io/mosn/pkg/module/http2"
 	"mosn.io/mosn/pkg/protocol/xprotocol"
 	"mosn.io/mosn/pkg/protocol/xprotocol/bolt"
 	"mosn.io/mosn/pkg/protocol/xprotocol/boltv2"
@@ -36,6 +35,7 @@ import (
 	"mosn.io/mosn/pkg/protocol/xprotocol/dubbothrift"
 	"mosn.io/mosn/pkg/protocol/xprotocol/tars"
 	xstream "mosn.io/mosn/pkg/stream/xprotocol"
+	"mosn.io/pkg/buffer"
 	"verif/vh"
 )
 
